@@ -79,7 +79,7 @@ def mutator(rng, c, focus, h):
 
 
 def histories(rng, tier):
-    n = 120 if tier == 'quick' else 2500
+    n = 350 if tier == 'quick' else 2500
     out = []
     for _ in range(n):
         c = gen.rand_cfg(rng, max_npix=768)
